@@ -59,4 +59,3 @@ func VerifC04Counts(t *Transaction) [][2]int64 {
 	}
 	return out
 }
-
